@@ -205,18 +205,42 @@ pub fn test_mpc(base: &MpcCase) -> Result<CaseInfo, Fail> {
     if shapes.windows(2).any(|w| w[0] != w[1]) {
         return Err(Fail::new("C19|mpc-traffic", "traffic shape depends on the tmp_dir assignment"));
     }
+    // runs that end in an error (a peer vanishes early / half way / near the end, or the arguments
+    // are rejected) must leave the directories of the remaining parties empty as well
+    let all_tmp = MpcCase { tmp: vec![true; n], ..base.clone() };
+    let gone = n - 1;
+    let sent = shapes[0].iter().filter(|(k, _)| k.0 == gone).map(|(_, v)| v.len()).sum::<usize>();
+    let mut aborted = 0u64;
+    for k in [1usize, sent / 2, sent.saturating_sub(2)] {
+        let run = run_mpc(&all_tmp, Adversary { crash_after: Some((gone, k)), ..Default::default() }, &cfg);
+        aborted += 1;
+        for p in (0..n).filter(|p| *p != gone) {
+            if run.tmp_left[p] != 0 {
+                return Err(Fail::new("C19|mpc-file-left|aborted-run", format!("party {p} ended with {} after party {gone} vanished before its message #{k}: {} entries left in its tmp_dir", run.res.outcomes[p].class(), run.tmp_left[p])));
+            }
+        }
+    }
+    {
+        let mut ov: Vec<Option<crate::run::PartyArgs>> = vec![None; n];
+        ov[0] = Some(crate::run::PartyArgs { inputs: vec![true; base.inputs[0].len() + 1], p_eval: base.p_eval, p_own: 0, p_out: base.p_out.clone() });
+        let run = crate::run::run_mpc_ext(&all_tmp, Adversary::default(), &cfg, Some(ov));
+        aborted += 1;
+        if let Some(p) = (0..n).find(|p| run.tmp_left[*p] != 0) {
+            return Err(Fail::new("C19|mpc-file-left|rejected-run", format!("party {p} ended with {} (party 0 was called with a wrong number of input bits): {} entries left in its tmp_dir", run.res.outcomes[p].class(), run.tmp_left[p])));
+        }
+    }
     Ok(CaseInfo {
         nontrivial: (base.circ.and_ops > 0).then(|| hash_of(&serde_json::to_string(base).unwrap())),
         classes: vec![format!("mpc:n={n}"), if base.circ.and_ops > 1000 { "mpc:multi_batch".into() } else { "mpc:single_batch".into() }],
         sample: Some(json!({"mpc": {"n": n, "ands": base.circ.and_ops, "assignments": 1 << n}})),
-        extra_runs: (1u64 << n) - 1,
+        extra_runs: (1u64 << n) - 1 + aborted,
         ..Default::default()
     })
 }
 
 pub fn run(tier: Tier, seed: u64) -> i32 {
     let ctx = Ctx::new("C19", tier, seed, "exploration");
-    ctx.set_rule("proptest (model-based): operation sequences of length <= 12 over {append(1..3c), append(c), iter-all, iter-take(k)+drop, chunks(c)-all, chunks-take(k)+drop}, chunk size c in 1..8, element types u64 / authenticated share / pair of shares / garbled gate, applied to the file variant, the memory variant and a Vec model with chunk list: items and order equal in both variants after every step, chunk boundaries equal to the appended chunks whenever all appends but the last have size c, temp directory listing empty after every step and after drop; plus mpc runs (n<=3, incl. >1000 ANDs and >9000 random shares where the two batch sizes of the engine differ) under every per-party tmp_dir assignment: result, traffic shape, empty directories. non-trivial = sequence with an append after a (partial) read / mpc case with AND gates");
+    ctx.set_rule("proptest (model-based): operation sequences of length <= 12 over {append(1..3c), append(c), iter-all, iter-take(k)+drop, chunks(c)-all, chunks-take(k)+drop}, chunk size c in 1..8, element types u64 / authenticated share / pair of shares / garbled gate, applied to the file variant, the memory variant and a Vec model with chunk list: items and order equal in both variants after every step, chunk boundaries equal to the appended chunks whenever all appends but the last have size c, temp directory listing empty after every step and after drop; plus mpc runs (n<=3, incl. >1000 ANDs and >9000 random shares where the two batch sizes of the engine differ) under every per-party tmp_dir assignment: result, traffic shape, empty directories; and, with every party spilling, runs that end in an error (a peer vanishes after 1 / half / all but two of its messages; wrong number of input bits at one party): empty directories at the remaining parties. non-trivial = sequence with an append after a (partial) read / mpc case with AND gates");
     prop_search(&ctx, "ops", tier.pick(4000, 400_000), gen_ops, test_case);
     if !ctx.stopped() {
         let cp = CaseParams { circ: CircParams { n_min: 2, n_max: 3, max_gates: 20, bulk: vec![1001, 2001], bulk_prob: 40, ..Default::default() }, all_scheds: false, caps: vec![0], tmp: false };
